@@ -149,6 +149,13 @@ func (r *FuncResult) runHoudini(tier string) (rounds int, queries int) {
 		rounds++
 		changed := false
 		en := enableAsserts(r.Candidates)
+		if os.Getenv("GVC_DEBUG") != "" {
+			for _, c := range r.Candidates {
+				if !c.Auto {
+					fmt.Fprintf(os.Stderr, "round %d: %s alive=%v %s: %s\n", rounds, c.Enable.name, c.Alive, c.Loop, c.Src)
+				}
+			}
+		}
 		var qs []*query
 		owner := map[*query]*houdiniObl{}
 		for _, h := range r.houdini {
@@ -183,7 +190,11 @@ func (r *FuncResult) runHoudini(tier string) (rounds int, queries int) {
 			if q.result.verdict != "unsat" {
 				h := owner[q]
 				if os.Getenv("GVC_DEBUG") != "" {
-					fmt.Fprintf(os.Stderr, "houdini: %s fails (%s) round %d\n", h.o.Name, q.result.verdict, rounds)
+					gs := q.goal.String()
+					if len(gs) > 400 {
+						gs = gs[:400]
+					}
+					fmt.Fprintf(os.Stderr, "houdini: %s fails (%s) round %d at %s piece: %s\n", h.o.Name, q.result.verdict, rounds, h.o.Pos, gs)
 					if os.Getenv("GVC_DEBUG") == "2" {
 						os.WriteFile("/tmp/houdini_"+sanitizeFile(h.o.Name)+".smt2", []byte(Script(q.as, ScriptOpts{Model: true})), 0o644)
 					}
